@@ -140,7 +140,7 @@ mk_global  xor_check_sse, function
 func(xor_check_sse)
 	FUNC_SAVE
 %ifidn PS,8				;64-bit code
-	sub	vec, 1			; Keep as offset to last source
+	sub	DWORD(vec), 1			; Keep as offset to last source (vects is an int: a negative count fails the test below)
 %else					;32-bit code
 	mov	tmp, arg(0)		; Update vec length arg to last source
 	sub	tmp, 1
